@@ -58,8 +58,8 @@ RULE = ('case = one random search space (gen/spaces.random_space with floats, '
         'expressions of depth <= 4 over >> | & + - ^ * ** [] ~ with_prob '
         'if_true if_false Conditional Choice until_change for_each/flatten '
         'global-state and plain callables; then `kpoint_extra` K-point '
-        'crossovers of the two most different parents and `conflict_extra` '
-        'seeded point-wise recombinations of the parents that conflict most on '
+        'crossovers of the two most different parents and (in place of as many '
+        'of the `apps`) `conflict_extra` seeded point-wise recombinations of the parents that conflict most on '
         'a constrained multi-choice; sometimes a full nsga2 / '
         'regularized_evolution run. Each application is run probed (every node '
         'wrapped, all monitors) and bare (as a user writes it) under different '
@@ -478,6 +478,7 @@ def flatten(xs, out=None):
 
 
 MAX_POINTS = 16          # library cost per DNA is ~2 ms per node
+WIDE_MAX_POINTS = 12     # with a wide multi-choice (every node of it is active)
 FLOAT_EDGES = [(0.0, 0.1), (0.1, 0.3), (-0.7, 0.7), (0.1, 0.1), (0.3, 0.9)]
 
 
@@ -504,9 +505,9 @@ def gen_space(rng):
     lo, hi = rng.choice(FLOAT_EDGES)
     extra.append(S.floatv(lo, hi, loc='fedge'))
   wide = None
-  if rng.random() < 0.5:
+  if rng.random() < 0.4:
     # a wide constrained multi-choice: many subchoices over many candidates
-    k = rng.choice([3, 4, 5, 6, 7])
+    k = rng.choice([3, 4, 4, 5, 6, 7])
     distinct, srt = rng.choice([(True, False), (True, False), (True, True),
                                 (False, True)])
     n = k if (distinct and rng.random() < 0.4) else rng.randint(
@@ -517,7 +518,8 @@ def gen_space(rng):
     extra.append(wide)
   for e in extra:
     elems.insert(rng.randint(0, len(elems)), e)
-  while S.count_points(S.space(*elems)) > MAX_POINTS and len(elems) > 1:
+  limit = MAX_POINTS if wide is None else WIDE_MAX_POINTS
+  while S.count_points(S.space(*elems)) > limit and len(elems) > 1:
     # (the wide point is kept: the other elements make room for it)
     victims = [i for i, e in enumerate(elems) if e is not wide]
     elems.pop(rng.choice(victims))
@@ -1626,8 +1628,17 @@ def run_algorithm(ctx, env, rng, case):
               f'population_size={size}, seed={seed})')
   name = 'algorithm.' + kind
 
+  consumed = []
+
   def once(gseed):
     pyrandom.seed(gseed)
+    rng_state = pyrandom.getstate()
+    try:
+      return proposals()
+    finally:
+      consumed.append(pyrandom.getstate() != rng_state)
+
+  def proposals():
     mut = MU.Uniform(seed=mseed)
     if power > 1:
       mut = mut ** power
@@ -1655,6 +1666,11 @@ def run_algorithm(ctx, env, rng, case):
                     ''.join(traceback.format_exception(e))[-2500:], case)
       return
   c['algorithm_runs:' + kind] += 1
+  c['global_rng_checks'] += 1
+  if any(consumed):
+    ctx.violation('global-rng-consumed', name,
+                  'a run of the algorithm with seeded mutator and seeded '
+                  'selection drew from the global random module', case)
   bad = False
   for d in runs[0]:
     c['algorithm_proposals'] += 1
@@ -1696,6 +1712,9 @@ def run_case(ctx, i):
     c['cases_with_invalid_parents'] += 1
     return
   napps = int(ctx.params['apps'])
+  nconflict = (int(ctx.params.get('conflict_extra', 0))
+               if env.constrained and len(env.pop) >= 2 else 0)
+  napps -= nconflict          # the conflict battery is part of the `apps` budget
   ops_seen, productive, samples = [], 0, []
   singles = list(SINGLE_OPS)
   rng.shuffle(singles)
@@ -1722,8 +1741,8 @@ def run_case(ctx, i):
       ops_seen.append('recombinators.KPoint')
   # conflict battery: seeded point-wise recombination of the parents that
   # disagree most on a constrained multi-choice
-  if env.constrained and len(env.pop) >= 2:
-    for _ in range(int(ctx.params.get('conflict_extra', 0))):
+  if nconflict:
+    for _ in range(nconflict):
       expr = gen_leaf(rng, env, rng.choice(['recombinators.Uniform',
                                             'recombinators.Sample']), True)
       expr.pop('wseed', None)
